@@ -412,13 +412,13 @@ func TestCheck(t *testing.T) {
 		}
 		return
 	}
-	n := r.Pick(30000, 500000)
+	n := r.Pick(30000, 2500000)
 	for i := 0; i < n; i++ {
 		if r.Mine(i) {
 			caseRelay(r, i)
 		}
 	}
-	m := r.Pick(60000, 1000000)
+	m := r.Pick(60000, 5000000)
 	for i := 0; i < m; i++ {
 		if r.Mine(i) {
 			caseBuilder(r, i)
